@@ -60,13 +60,23 @@ var (
 	allTLDs     = append(genericTLDs, ccTLDs...)
 )
 
+// ErrEmailTooShort is returned when the value is too short to be replaced with an email-like token
+var ErrEmailTooShort = errors.New("value is too short for email token")
+
 func randomEmail(buf []byte) error {
+	if len(buf) < len("a@b") {
+		return ErrEmailTooShort
+	}
 	// If the buffer is really short, choose only among 2-letter country TLDs so that we have some space for other parts.
 	tlds := allTLDs
 	if len(buf) < len("a@b.cdef") {
 		tlds = ccTLDs
 	}
 	tld := []byte(tlds[seededRand.Int31n(int32(len(tlds)))])
+	if len(buf) < len("a@b")+len(tld) {
+		// no room for a top-level domain, generate "local@domain" only
+		tld = nil
+	}
 	// After we've chosen the TLD, fill the rest of the email with gibberish, and throw @ in there somewhere.
 	nonTLDlen := len(buf) - len(tld)
 	err := randomString(buf[:nonTLDlen])
